@@ -112,16 +112,31 @@ def gen_case(rng, maxn=24):
     style = rng.choice(STYLES)
     pts = gen_points(rng, style, n, d)
     n = len(pts)
+    # points (and often the query) in a small numpy dtype: coordinates are moved into its range first
+    typed = rng.choice(TYPED_CONTAINERS) if pts and rng.random() < 0.25 else None
+    if typed:
+        lo_, hi_ = TYPED_RANGE[typed]
+        if typed == "bool":
+            pts = [[c & 1 for c in p] for p in pts]
+        else:
+            mn = min(c for p in pts for c in p)
+            mx = max(c for p in pts for c in p)
+            off = (lo_ - mn + rng.choice([0, 0, 3, max(0, hi_ - lo_ - (mx - mn) - 3)])) if lo_ == 0 else rng.choice([0, 0, lo_ - mn, hi_ - mx])
+            pts = [[min(hi_, max(lo_, c + off)) for c in p] for p in pts]
     mls = rng.choice([1, 1, 1, 2, 2, 2, 3, 3, 4, 4, 6, 10])
     strategy = rng.choice(["balanced", "balanced", "fast", "random"])
     knn = []
     for _ in range(3):
         Q = gen_query_point(rng, pts, d)
+        if typed and rng.random() < 0.6:
+            Q = typed_query_point(rng, pts, d, typed)
         k = rng.choice([1, 2, 3, mls, mls + 1, max(1, n - 1), n, n + 1, n + 2, rng.randint(1, n + 2)])
         knn.append([Q, max(1, k)])
     rad = []
     for _ in range(2):
         Q = gen_query_point(rng, pts, d)
+        if typed and rng.random() < 0.6:
+            Q = typed_query_point(rng, pts, d, typed)
         r = rng.random()
         if r < 0.15:
             m = 0
@@ -137,7 +152,33 @@ def gen_case(rng, maxn=24):
         case["ambient"] = gen_ambient(rng)
     add_container(rng, case)
     add_scenario(rng, case)
+    if typed:
+        case["container"] = typed
+        case["dtype"] = "float"
+        case.pop("scale_exp", None)
+        case["qform"] = rng.choice(["typed", "typed", "typed", "array", "list"])
+        if case.get("mutate"):
+            case["mutate"] = "reverse"
     return case
+
+
+TYPED_CONTAINERS = ["uint8", "uint8", "uint16", "int8", "int8", "int32", "float32", "bool"]
+TYPED_RANGE = {"uint8": (0, 255), "uint16": (0, 65535), "int8": (-128, 127), "int32": (-10 ** 6, 10 ** 6),
+               "float32": (-2 ** 20, 2 ** 20), "bool": (0, 1)}
+
+
+def typed_query_point(rng, pts, d, typed):
+    """An integer query position representable in the points' dtype (so that it can be passed in that dtype)."""
+    lo_, hi_ = TYPED_RANGE[typed]
+    r = rng.random()
+    if typed == "bool":
+        return [2 * rng.randint(0, 1) for _ in range(d)]
+    if r < 0.3:
+        return [2 * c for c in rng.choice(pts)]
+    if r < 0.7:
+        return [2 * min(hi_, max(lo_, c + rng.randint(-6, 6))) for c in rng.choice(pts)]
+    span = (lo_, hi_) if typed in ("uint8", "int8") else (max(lo_, -40), min(hi_, 300))
+    return [2 * rng.randint(*span) for _ in range(d)]
 
 
 SPELL = {"balanced": ["balanced", "Balanced", "BALANCED"], "fast": ["fast", "Fast", "FAST"], "random": ["random", "Random", "RANDOM"]}
@@ -538,7 +579,7 @@ def run(ctx):
                 "and 2 radius queries (radius 0, a data point exactly on the sphere, random); in 35% of the cases one or two other "
                 "mouette PriorityQueue objects with pending items (negative / positive priorities) are alive during build and queries "
                 "and must be left unchanged; the points are handed over as list / tuple / float ndarray / int ndarray / Fortran-ordered / "
-                "non-contiguous view, and in 40% of the ndarray cases the caller overwrites its array after construction and builds a "
+                "non-contiguous view, or (25%) as uint8 / uint16 / int8 / int32 / float32 / bool arrays with the query point in the same dtype, and in 40% of the ndarray cases the caller overwrites its array after construction and builds a "
                 "second tree from it before the first tree is queried (answers judged against the points at construction; the "
                 "caller's array must never be modified by build or query). Scenario dimensions drawn per case: arguments positional / keyword / omitted-at-default, strategy spelled in "
                 "other cases, k / max_leaf_size / r as python, numpy 64- and 32-bit numbers, query point as array / list / tuple / int "
